@@ -93,7 +93,7 @@ Print Assumptions C05_conc_put_steps_are_put.
    finished) the shared store equals the Puts started so far executed one after another in lock-acquisition order *)
 Theorem C05_conc_locked_serial : forall (V : Type) (vlen : V -> N) (dec : bytes -> N) (s0 : st (V:=V)) work sched,
   length (node s0) = 32%nat ->
-  let c := exec vlen dec true (start s0 work) sched in
+  let c := exec vlen dec true false (start s0 work) sched in
   (lock c = None -> sh c = seq_puts vlen dec s0 (log c)) /\ (quiescent c = true -> lock c = None).
 Proof. exact @locked_is_serial. Qed.
 Print Assumptions C05_conc_locked_serial.
@@ -103,7 +103,7 @@ Print Assumptions C05_conc_locked_serial.
 Theorem C05_conc_locked_accounting : forall (V : Type) (vlen : V -> N) (vhead8 : V -> res N) (dec : bytes -> N) Q
     (y0 : sys (V:=V)) work sched,
   SInv vlen Q y0 -> Forall (fun p => valid_id (node (mem y0)) (fst p)) (concat work) ->
-  let c := exec vlen dec true (start (mem y0) work) sched in
+  let c := exec vlen dec true false (start (mem y0) work) sched in
   quiescent c = true ->
   exists y', run vlen vhead8 dec y0 (map (fun p => OPut (fst p) (snd p)) (log c)) = Ok y' /\ mem y' = sh c /\
     SInv vlen (fun k v => Q k v \/ was_put (node (mem y0)) (map (fun p => OPut (fst p) (snd p)) (log c)) k v) y' /\
@@ -116,7 +116,7 @@ Theorem C05_conc_locked_within_capacity : forall (V : Type) (vlen : V -> N) (vhe
     (y0 : sys (V:=V)) work sched,
   SInv vlen Q y0 -> cnt (mem y0) <= cap (mem y0) ->
   Forall (fun p => valid_id (node (mem y0)) (fst p) /\ 32 + vlen (snd p) <= expect (mem y0)) (concat work) ->
-  let c := exec vlen dec true (start (mem y0) work) sched in
+  let c := exec vlen dec true false (start (mem y0) work) sched in
   quiescent c = true -> cnt (sh c) <= cap (sh c) /\ held vlen (sh c) <= cap (sh c).
 Proof. exact @locked_quiescent_within_capacity. Qed.
 Print Assumptions C05_conc_locked_within_capacity.
@@ -124,7 +124,7 @@ Print Assumptions C05_conc_locked_within_capacity.
 (* the code before fix C05-put-mutex: two goroutines, both pass the capacity, both prune passes scan the same
    database and both subtract - the usage figure and the persisted record under-report, the bytes held exceed the capacity *)
 Theorem C05_conc_unlocked_refuted :
-  let c := exec nv_len le_to_N false (start conc_s0 conc_work) conc_sched in
+  let c := exec nv_len le_to_N false false (start conc_s0 conc_work) conc_sched in
   quiescent c = true /\
   cnt (sh c) = 900096 /\ held nv_len (sh c) = 1000128 /\
   rec (sdb (sh c)) = Some (SizeRec 900096) /\
@@ -134,7 +134,7 @@ Print Assumptions C05_conc_unlocked_refuted.
 
 (* the same goroutines and scheduler choices with the mutex *)
 Example C05_conc_locked_example :
-  let c := exec nv_len le_to_N true (start conc_s0 conc_work) (conc_sched ++ conc_sched) in
+  let c := exec nv_len le_to_N true false (start conc_s0 conc_work) (conc_sched ++ conc_sched) in
   quiescent c = true /\ held nv_len (sh c) <= cnt (sh c) /\ cnt (sh c) <= cap (sh c).
 Proof. exact conc_locked_same_schedule. Qed.
 
